@@ -329,6 +329,19 @@ static uint64_t perft_do(Position& p, int d)
     return s;
 }
 
+static int g_park_point = -1, g_park_nth = 1, g_park_ms = 0;
+static std::atomic<int> g_park_count[8];
+static void park_sched(int point)
+{
+    if (point < 0 || point >= 8) return;
+    int n = ++g_park_count[point];
+    if (point == g_park_point && n == g_park_nth)
+    {
+        fprintf(stderr, "PARKED point=%d nth=%d\n", point, n);
+        std::this_thread::sleep_for(std::chrono::milliseconds(g_park_ms));
+    }
+}
+
 #include "cppdrv_search.inc"
 
 int main(int argc, char** argv)
@@ -341,7 +354,19 @@ int main(int argc, char** argv)
 
     std::string mode = argc > 1 ? argv[1] : "run";
     if (mode == "dump") { dump_tables(); return 0; }
-    if (mode == "uci") { Uci u; u.loop(); return 0; }
+    if (mode == "uci")
+    {
+        // the real two-thread UCI front end; VERIF_PARK="point:nth:ms" parks the search thread at a schedule point
+        if (const char* e = getenv("VERIF_PARK"))
+        {
+            sscanf(e, "%d:%d:%d", &g_park_point, &g_park_nth, &g_park_ms);
+            verif::sched_fn = park_sched;
+        }
+        Uci u; u.loop();
+        // give a detached search thread the chance to finish printing before the process exits
+        std::this_thread::sleep_for(std::chrono::milliseconds(50));
+        return 0;
+    }
 
     Ctx c;
     std::string line;
